@@ -605,9 +605,13 @@ class C06(core.Prop):
                 env = core.impl_env({'FORML_HOME': str(tmp / 'home'), 'HOME': str(tmp)})
                 proc = subprocess.run(['/venv/bin/python', '-W', 'ignore', '-m', 'harness.impl.c06hist', str(tmp / 'in.json'), str(tmp / 'out.json')],
                                       cwd=str(core.ROOT), env=env, capture_output=True, text=True, timeout=600)
-                if proc.returncode or not (tmp / 'out.json').exists():
+                # the runner writes out.json in one piece after its last operation: a non-zero status with a complete out.json is a
+                # crash at interpreter teardown (native threads aborting under load: 'terminate called without an active
+                # exception'), after everything the property speaks about was observed
+                try:
+                    reply = json.loads((tmp / 'out.json').read_text())
+                except (OSError, ValueError):
                     return {'error': f'segment {k} failed: {proc.stderr[-400:]}'}
-                reply = json.loads((tmp / 'out.json').read_text())
                 if isinstance(reply, dict):
                     results += reply['results']
                     content = reply['content']
